@@ -120,6 +120,34 @@ Proof.
   induction 1 as [|s i sigs isigs R _ IH]; [reflexivity|]. cbn [c12_all]. rewrite (c12_one_impl _ _ R), IH. reflexivity.
 Qed.
 
+Lemma c12_trait_one_ok subs o s i :
+  c12_rel s i -> c12_trait_one (contains_async_trait subs) (future_send o) s (make_trait_fn_sig i subs o) = true.
+Proof.
+  intros [R1 R2]. unfold c12_trait_one, make_trait_fn_sig. rewrite R1.
+  destruct (s_async s), (contains_async_trait subs); cbn [andb negb s_async s_output];
+    rewrite ?R1, ?R2, ?opt_toks_eqb_refl; reflexivity.
+Qed.
+
+Lemma c12_trait_all_rel subs o : forall sigs isigs,
+  Forall2 c12_rel sigs isigs ->
+  c12_trait_all (contains_async_trait subs) (future_send o) sigs (map (fun s => make_trait_fn_sig s subs o) isigs) = true.
+Proof.
+  induction 1 as [|s i sigs isigs R _ IH]; [reflexivity|]. cbn [map c12_trait_all]. rewrite (c12_trait_one_ok _ _ _ _ R), IH. reflexivity.
+Qed.
+
+(** the receiver rewrites of the delegation-target trait touch only the parameters *)
+Lemma static_receiver_rel s : c12_rel s (static_impl_receiver s).
+Proof. unfold static_impl_receiver. destruct (p_items (s_inputs s)) as [|[x r m c|x p ty] rest]; split; reflexivity. Qed.
+
+Lemma dynamic_receiver_rel s : c12_rel s (dynamic_impl_receiver s).
+Proof. unfold dynamic_impl_receiver. destruct (first_is_receiver s); split; reflexivity. Qed.
+
+Lemma contains_async_filter' l : contains_async_trait (filter is_async_trait l) = contains_async_trait l.
+Proof.
+  unfold contains_async_trait. induction l as [|x l IH]; [reflexivity|]. cbn [filter existsb].
+  destruct (is_async_trait x) eqn:E; cbn [existsb]; rewrite ?E, IH; reflexivity.
+Qed.
+
 Lemma fn_ok_rel_all k o : forall sigs fns, Forall2 (fn_ok k o) sigs fns -> Forall2 c12_rel sigs (map tf_sig fns).
 Proof. induction 1 as [|s tf sigs fns R _ IH]; [constructor|]. cbn [map]. constructor; [eapply fn_ok_rel; exact R | exact IH]. Qed.
 
@@ -229,23 +257,50 @@ Qed.
 
 (** the delegation-target traits: none without a target name; otherwise the target trait carries exactly
     the [async_trait] attributes, and (for [delegate_by = SomeTrait]) the selector trait carries none *)
+Lemma trait_sigs_mk a v u au n g c sup subs o (fns : list trait_fn) :
+  trait_sigs (mkTrait a v u au n g c sup
+                      (map (fun tf => TFn (tf_attrs tf) (make_trait_fn_sig (tf_sig tf) subs o) None true) fns))
+  = map (fun tf => (tf_attrs tf, make_trait_fn_sig (tf_sig tf) subs o)) fns.
+Proof.
+  unfold trait_sigs. cbn [t_items]. induction fns as [|tf fns IH]; [reflexivity|]. cbn [map flat_map app]. rewrite IH. reflexivity.
+Qed.
+
 Lemma delegation_ds a v tg fns subs ds :
   delegation_trait_defs a v tg fns subs = Ok (map ITrait ds) ->
   match ta_impl_trait a with
   | None => ds = []
   | Some n =>
-      exists td, t_name td = n /\ t_attrs td = subs /\
+      exists td recv, t_name td = n /\ t_attrs td = subs /\
+        (recv = static_impl_receiver \/ recv = dynamic_impl_receiver) /\
+        trait_sigs td = map (fun tf => (tf_attrs tf, make_trait_fn_sig (recv (tf_sig tf)) subs (no_mock_opts (ta_opts a)))) fns /\
         (ds = [td] \/ exists del sel, ta_delegate a = Some (ByTrait del) /\ ds = [td; sel] /\
                                       t_name sel = del /\ t_attrs sel = [])
   end.
 Proof.
   unfold delegation_trait_defs. destruct (ta_impl_trait a) as [n|].
   - destruct (ta_delegate a) as [[|r|del]|]; intros H; try discriminate H; injection H as H.
-    + destruct ds as [|td [|? ?]]; try discriminate H. injection H as H. exists td. subst td.
-      split; [reflexivity|]. split; [|left; reflexivity]. cbn. apply app_nil_r.
-    + destruct ds as [|td [|sel [|? ?]]]; try discriminate H. injection H as H1 H2. exists td. subst td sel.
-      split; [reflexivity|]. split; [cbn; apply app_nil_r|]. right. exists del. eexists. repeat split.
+    + destruct ds as [|td [|? ?]]; try discriminate H. injection H as H. exists td, dynamic_impl_receiver. subst td.
+      split; [reflexivity|]. split; [cbn; apply app_nil_r|]. split; [right; reflexivity|]. split; [|left; reflexivity].
+      rewrite trait_sigs_mk, map_map. reflexivity.
+    + destruct ds as [|td [|sel [|? ?]]]; try discriminate H. injection H as H1 H2. exists td, static_impl_receiver. subst td sel.
+      split; [reflexivity|]. split; [cbn; apply app_nil_r|]. split; [left; reflexivity|].
+      split; [|right; exists del; eexists; repeat split].
+      rewrite trait_sigs_mk, map_map. reflexivity.
   - intros H. injection H as H. destruct ds; [reflexivity | discriminate H].
+Qed.
+
+(** the methods of the delegation-target trait against the source methods: asyncness / return type exactly as
+    for the re-emitted trait ([impl Future .. [+ Send]] unless [async_trait]) *)
+Lemma target_trait_sigs_ok attrs o recv fns td :
+  (recv = static_impl_receiver \/ recv = dynamic_impl_receiver) ->
+  trait_sigs td = map (fun tf => (tf_attrs tf, make_trait_fn_sig (recv (tf_sig tf)) (filter is_async_trait attrs) (no_mock_opts o))) fns ->
+  c12_trait_all (contains_async_trait attrs) (future_send o) (map tf_sig fns) (map snd (trait_sigs td)) = true.
+Proof.
+  intros Hr ->. rewrite map_map. cbn [snd].
+  rewrite <- (map_map (fun tf => recv (tf_sig tf)) (fun s => make_trait_fn_sig s (filter is_async_trait attrs) (no_mock_opts o))).
+  rewrite <- (contains_async_filter' attrs). change (future_send o) with (future_send (no_mock_opts o)).
+  apply c12_trait_all_rel. induction fns as [|tf fns IH]; [constructor|]. cbn [map]. constructor; [|exact IH].
+  destruct Hr as [->| ->]; [apply static_receiver_rel | apply dynamic_receiver_rel].
 Qed.
 
 Lemma map_sig3 {A B C} (l : list (A * B * C)) :
@@ -290,8 +345,9 @@ Proof.
     rewrite Hds in Hd. pose proof (delegation_ds _ _ _ _ _ _ Hd) as Hdd.
     cbn [eff_trait_attr ta_impl_trait ta_delegate] in Hdd |- *.
     destruct (ta_impl_trait a0) as [n|] eqn:En; [|reflexivity].
-    destruct Hdd as (td & Hn & Hat & [->|(del & sel & Hdel & -> & Hsn & Hsa)]);
-      rewrite Hat; apply sub_attrs_reapplied_ok; apply filter_idem.
+    destruct Hdd as (td & recv & Hn & Hat & Hr & Hts & [->|(del & sel & Hdel & -> & Hsn & Hsa)]);
+      rewrite Hat, sub_attrs_reapplied_ok by apply filter_idem;
+      apply (target_trait_sigs_ok (h_attrs h) (apply_variant v (ta_opts a0)) recv fns td Hr Hts).
   - destruct (expand_impl_inv _ _ _ _ _ _ _ _ _ H) as (_ & bitems & fl & a & fns0 & tg & mode & ib & Hs & Ha & Hz & _ & Hib & ->).
     cbv zeta in Hz, Hib.
     destruct (gen_impl_block_fns _ _ _ _ _ _ _ _ _ Hib) as (argss & Fa & Hfns & _ & Hattrs & _).
@@ -358,5 +414,41 @@ Proof.
   rewrite Hds in Hd. pose proof (delegation_ds _ _ _ _ _ _ Hd) as Hdd.
   cbn [eff_trait_attr ta_impl_trait ta_delegate] in Hdd.
   destruct (ta_impl_trait a0) as [n|]; [|exact Hdd].
-  destruct Hdd as (td & Hn & Hat & [->|(del & sel & _ & -> & _)]); exists td; repeat split; assumption.
+  destruct Hdd as (td & recv & Hn & Hat & _ & _ & [->|(del & sel & _ & -> & _)]); exists td; repeat split; assumption.
+Qed.
+
+(** the delegation-target trait (first generated trait after the re-emitted one, when a target name is given):
+    its methods are the source methods with the receiver rewritten, through [make_trait_fn_sig] with the
+    [async_trait] attributes and the same [future_send] *)
+Lemma c12_target_trait_explicit v attr h t items :
+  expand_items v attr (InTrait h t) = Ok items ->
+  exists a0 tr ds im,
+    parse_trait_attr attr = Ok a0 /\ items = [ITrait tr] ++ map ITrait ds ++ [IImpl im] /\
+    forall n, ta_impl_trait a0 = Some n ->
+      exists td recv, hd_error ds = Some td /\ t_name td = n /\
+        (recv = static_impl_receiver \/ recv = dynamic_impl_receiver) /\
+        (forall s, s_async (recv s) = s_async s /\ s_output (recv s) = s_output s) /\
+        trait_sigs td = map (fun '(x, s) => (x, make_trait_fn_sig (recv s) (filter is_async_trait (h_attrs h))
+                                                                  (no_mock_opts (apply_variant v (ta_opts a0)))))
+                            (trait_sigs t) /\
+        future_send (no_mock_opts (apply_variant v (ta_opts a0))) = future_send (apply_variant v (ta_opts a0)) /\
+        contains_async_trait (filter is_async_trait (h_attrs h)) = contains_async_trait (h_attrs h) /\
+        c12_trait_all (contains_async_trait (h_attrs h)) (future_send (apply_variant v (ta_opts a0)))
+                      (map snd (trait_sigs t)) (map snd (trait_sigs td)) = true.
+Proof.
+  intros H. destruct (expand_trait_inv _ _ _ _ _ H) as (a0 & fns & deleg & methods & Ha & _ & Hf & Hd & Hm & ->).
+  match goal with |- context [[ITrait ?tr] ++ deleg ++ [IImpl ?im]] =>
+    destruct (parts_trait h t tr deleg im (delegation_trait_defs_shape _ _ _ _ _ _ Hd)) as (ds & _ & Hds) end.
+  destruct (analyze_trait_items_spec _ _ Hf) as [Hsig _].
+  exists a0. eexists. exists ds. eexists. split; [exact Ha|]. split; [rewrite Hds; reflexivity|].
+  intros n Hn. rewrite Hds in Hd. pose proof (delegation_ds _ _ _ _ _ _ Hd) as Hdd.
+  cbn [eff_trait_attr ta_impl_trait ta_delegate ta_opts] in Hdd. rewrite Hn in Hdd.
+  destruct Hdd as (td & recv & Hname & _ & Hr & Hts & Hshape). exists td, recv.
+  assert (Hsrc : map snd (trait_sigs t) = map tf_sig fns).
+  { unfold trait_sigs. rewrite <- Hsig, map_map. reflexivity. }
+  split; [destruct Hshape as [->|(del & sel & _ & -> & _)]; reflexivity|]. split; [exact Hname|]. split; [exact Hr|].
+  split; [intros s; destruct Hr as [->| ->]; [apply static_receiver_rel | apply dynamic_receiver_rel]|].
+  split; [rewrite Hts; unfold trait_sigs at 1; rewrite <- Hsig, map_map; reflexivity|].
+  split; [reflexivity|]. split; [apply contains_async_filter'|].
+  rewrite Hsrc. exact (target_trait_sigs_ok (h_attrs h) (apply_variant v (ta_opts a0)) recv fns td Hr Hts).
 Qed.
